@@ -4,6 +4,8 @@
   `StructWF` is in ../StructWF.lean, proofs in ../Struct1.lean … ../Struct3.lean.
 -/
 import Spydr.Edif.Struct3
+import Spydr.Edif.Names3
+import Spydr.Edif.LemmasWF
 import Spydr.Edif.Props.C05Denote
 namespace Spydr.Edif.C05
 open Spydr.Edif
@@ -50,6 +52,66 @@ theorem multibitAdd_wellformed (look : Nat → List CDef) (ports : List CPort) (
 theorem hasDupPin_iff (cables : List CCable) :
     hasDupPin cables = false ↔ (cables.flatMap fun c => c.wires.flatten).Nodup :=
   ⟨nodup_of_hasDupPin cables, hasDupPin_false cables⟩
+
+/-- **reader_names_everything** — for EVERY text: every element of the netlist the reader returns — the netlist
+    itself, the top instance, every library, definition, port, instance and cable — carries an EDIF
+    identifier and a name (`AllNamed`, decidable).  Whatever follows the name of an element in the text
+    (properties, comments, status blocks, levels, view data — `Names1.lean`: all of it is stored under keys
+    other than `EDIF.identifier` / `EDIF.original_identifier` / `.NAME`) leaves both in place. -/
+theorem reader_names_everything (text : List Char) (n : CNetlist) (h : readEdif text = .ok n) : AllNamed n :=
+  allNamed_readEdif text n h
+
+/-- with names everywhere, "no clash" is literally: pairwise different names and pairwise different
+    identifiers ignoring case (`Distinct` of LemmasWF.lean, the clause of C03's quantifier) -/
+theorem distinct_of_noClash (ds : List Data) (hc : NoClash ds) (hn : ∀ d ∈ ds, Named d) : Distinct ds := by
+  unfold NoClash at hc
+  unfold Distinct
+  rw [List.pairwise_iff_getElem] at hc ⊢
+  intro i j hi hj hij
+  have h := hc i j hi hj hij
+  obtain ⟨a1, a2⟩ := hn _ (List.getElem_mem hi)
+  obtain ⟨b1, b2⟩ := hn _ (List.getElem_mem hj)
+  cases hia : identOf ds[i] with
+  | none => simp [hia] at a1
+  | some ia =>
+    cases hna : nameOf ds[i] with
+    | none => simp [hna] at a2
+    | some na =>
+      cases hib : identOf ds[j] with
+      | none => simp [hib] at b1
+      | some ib =>
+        cases hnb : nameOf ds[j] with
+        | none => simp [hnb] at b2
+        | some nb =>
+          simp only [clash, hia, hib, hna, hnb, Bool.or_eq_false_iff, beq_eq_false_iff_ne, ne_eq] at h
+          simp only [nmOf, idOf, hia, hib, hna, hnb, Option.getD_some]
+          exact ⟨h.2, h.1⟩
+
+/-- **reader_siblings_distinct** — for every accepted text, the libraries of the netlist carry pairwise
+    different names and pairwise different identifiers ignoring case; likewise the definitions of every
+    library and the ports, instances and cables of every definition -/
+theorem reader_siblings_distinct (text : List Char) (n : CNetlist) (h : readEdif text = .ok n) :
+    Distinct (n.libs.map (·.data)) ∧
+    ∀ l ∈ n.libs, Distinct (l.defs.map (·.data)) ∧
+      ∀ d ∈ l.defs, Distinct (d.ports.map (·.data)) ∧ Distinct (d.insts.map (·.data)) ∧ Distinct (d.cables.map (·.data)) := by
+  have hs := reader_accepts_wellformed text n h
+  obtain ⟨_, _, hl⟩ := reader_names_everything text n h
+  have hmap : ∀ {α : Type} (f : α → Data) (xs : List α), (∀ x ∈ xs, Named (f x)) → ∀ d ∈ xs.map f, Named d := by
+    intro α f xs hx d hd
+    obtain ⟨x, hxm, rfl⟩ := List.mem_map.mp hd
+    exact hx x hxm
+  refine ⟨distinct_of_noClash _ hs.libs (hmap _ _ (fun l hlm => (hl l hlm).1)), ?_⟩
+  intro l hlm
+  obtain ⟨L, hL, rfl⟩ := List.getElem_of_mem hlm
+  have hzl : (n.libs[L], L) ∈ n.libs.zipIdx := List.mem_zipIdx_iff_getElem?.mpr (List.getElem?_eq_getElem hL)
+  refine ⟨distinct_of_noClash _ (hs.defs _ hzl) (hmap _ _ (fun d hd => ((hl _ hlm).2 d hd).1)), ?_⟩
+  intro d hdm
+  obtain ⟨D, hD, rfl⟩ := List.getElem_of_mem hdm
+  have hzd : (n.libs[L].defs[D], D) ∈ n.libs[L].defs.zipIdx := List.mem_zipIdx_iff_getElem?.mpr (List.getElem?_eq_getElem hD)
+  have hw := hs.cells _ hzl _ hzd
+  obtain ⟨_, hp, hi, hc⟩ := (hl _ hlm).2 _ hdm
+  exact ⟨distinct_of_noClash _ hw.ports (hmap _ _ hp), distinct_of_noClash _ hw.insts (hmap _ _ hi),
+    distinct_of_noClash _ hw.cables (hmap _ _ hc)⟩
 
 /-! ### non-vacuity -/
 
